@@ -26,6 +26,10 @@ PROPS = {
         "run_modules": ["RunC11"],
         "rule": "scaled constants (CHUNK=64, BLOCK=256). enc: every plaintext length 0..2*CHUNK+20 (quick) / 0..4*CHUNK+20 x4 (thorough), "
                 "each with a random 30-op in-range history of single reads and seeks from start/current/end biased to chunk edges. "
+                "enc out-of-range (model correspondence only, no oracle): 7 (quick) / 11 (thorough) lengths x 17 seeks outside [0, len] — Start(u64::MAX), Start(u64::MAX-k), "
+                "the first position the D20 guard refuses and the last it accepts, Start(2^63-1 / 2^63 / 2^63+1), Start(2^32 chunks), Current(i64::MAX) at position 0, Current(i64::MIN), "
+                "End(1), End(i64::MAX), End(i64::MIN), End(i64::MIN+1) — each followed by two reads, an in-range seek and a read: status class, returned position and the reader state "
+                "(inner position, chunk number, cache position / length) after the failed seek must equal the model's. "
                 "comp: plaintext lengths 0..3*BLOCK+20 (quick: stride 23 plus every length within 2 of 0, BLOCK, 2*BLOCK, 3*BLOCK; thorough: all) x "
                 "{zeros, text, random}, written in pieces of {all,1,7,100,255,256,257,300,512} bytes at levels {0,1,5,9,11}, each with a random 30-op history of "
                 "reads (until n bytes or end of stream, n up to 3*BLOCK) and seeks from start/current/end biased to block edges +-1, 0 and the end; one history "
